@@ -29,6 +29,8 @@ struct Case {
     marks: Vec<Vec<Mark>>,
     generic: bool,
     entry: Entry,
+    /// named fields are raw identifiers
+    raw: bool,
 }
 
 const TYS: [&str; 4] = ["i32", "&'static str", "f64", "Inner"];
@@ -74,6 +76,10 @@ fn gen(ch: &mut Ch, thorough: bool) -> Option<Case> {
         }
         marks.push(m);
     }
+    let raw = ch.flag();
+    if raw && (generic || entry == Entry::Derive || dev > 1 || !shape.variants.iter().any(|v| v.kind == SKind::Named && v.n > 0)) {
+        return None;
+    }
     if generic && !shape.variants.iter().enumerate().any(|(vi, v)| (0..v.n).any(|fi| tyidx(vi, fi) == 0)) {
         return None; // no field of type T
     }
@@ -83,7 +89,7 @@ fn gen(ch: &mut Ch, thorough: bool) -> Option<Case> {
     if generic && dev > 1 && !thorough {
         return None;
     }
-    Some(Case { vector: ch.vector(), shape, marks, generic, entry })
+    Some(Case { vector: ch.vector(), shape, marks, generic, entry, raw })
 }
 
 fn two_transparent(c: &Case) -> bool {
@@ -144,6 +150,13 @@ fn generic_param_used_in_twin(c: &Case) -> bool {
 }
 
 fn build(c: &Case, tier: &str) -> XCase {
+    set_raw_field_names(c.raw);
+    let r = build_inner(c, tier);
+    set_raw_field_names(false);
+    r
+}
+
+fn build_inner(c: &Case, tier: &str) -> XCase {
     let sh = &c.shape;
     let item = item_of(c);
     let twin = twin_of(c);
@@ -200,6 +213,7 @@ fn build(c: &Case, tier: &str) -> XCase {
     atoms.insert(format!("entry={}", c.entry.name()));
     atoms.insert(format!("kind={}", if sh.is_enum { "enum" } else { "struct" }));
     atoms.insert(format!("generic={}", c.generic));
+    atoms.insert(format!("raw={}", c.raw));
     let nign = c.marks.iter().flatten().filter(|k| **k == Mark::Ignore).count();
     let ntr = c.marks.iter().flatten().filter(|k| **k == Mark::Transparent).count();
     atoms.insert(format!("ignored={nign}"));
